@@ -165,7 +165,10 @@ HEAD_PLUGINS = ["strikethrough", "mark", "insert", "superscript", "subscript", "
 HEAD_TEXTS = ["alpha", "beta *em* gamma", "`code` here", "a **strong** b", "x &amp; y", "[link](http://u.v) z", "tail <b>raw</b> t",
               "q < r", "plain words here", "![img](i.png) cap", "one\\*two", "e ~~s~~ f", "",
               "c <!-- x > y --> d", "<!-- a --> b <i>c</i>", "e <!-- --> f <!-- > -->", "x <a href=\"u\">l</a> y", "<span class=\"k\">s</span> t <!-- <b> -->", "[l](/u \"a>b\") m", "![a > b](/i.png) n",
-              "[foo][bar] and [baz]", "see [baz] x", "Release notes  \nVersion two", "line one\\\nline two", "soft\nbreak", "a  \nb  \nc", "==Breaking== changes", "H~2~O and x^2^", "a ^^ins^^ b", "$e=mc$ q", "[ruby(rt)] r", ">!sp!< s", "plain = sign", "1 + 1 = 2", "<span title=\"a>b\">x</span> y", "foo <!-- a >\n b --> bar", "<i data-x='>'>k</i> l"]
+              "[foo][bar] and [baz]", "see [baz] x", "Release notes  \nVersion two", "line one\\\nline two", "soft\nbreak", "a  \nb  \nc", "==Breaking== changes", "H~2~O and x^2^", "a ^^ins^^ b", "$e=mc$ q", "[ruby(rt)] r", ">!sp!< s", "plain = sign", "1 + 1 = 2", "<span title=\"a>b\">x</span> y", "foo <!-- a >\n b --> bar", "<i data-x='>'>k</i> l",
+              # attribute values that hold the other kind of quote (apostrophes in alt texts and titles, quotes inside single-quoted values)
+              "Logo ![Bob's photo](p.png) cap", "[docs](/d \"User's guide\") m", "[d](/d 'say \"hi\"') n", "<span title=\"it's\">x</span> y", "<i data-x='a\"b'>k</i> l", "![say \"cheese\"](c.png) o",
+              "![a'b\"c](x.png) p", "[it's](/u) q 'r'", "<b class=x title=it's>u</b> v", "<a href=\"u\" title='w\"x' data-y=\"z'\">l</a> m"]
 
 
 def heading_doc(rng):
